@@ -2,14 +2,17 @@
 
 PROPS = {
     "C18": {
-        "lean_modules": ["Posmint.Props.C18", "Posmint.Props.C18Coins", "Posmint.Props.C18Quo"],
-        "namespaces": ["Posmint.Props.C18", "Posmint.Props.C18Coins", "Posmint.Props.C18Quo"],
+        "lean_modules": ["Posmint.Props.C18", "Posmint.Props.C18Coins", "Posmint.Props.C18Quo", "Posmint.Props.C18DecCoins"],
+        "namespaces": ["Posmint.Props.C18", "Posmint.Props.C18Coins", "Posmint.Props.C18Quo", "Posmint.Props.C18DecCoins"],
         "required_theorems": ["Posmint.Props.C18." + t for t in ("intMul_exact", "chopRound_spec", "decMul_spec", "decCeil_spec")] +
                              ["Posmint.Props.C18Quo." + t for t in ("decQuoTruncate_exact", "decQuo_rounds_q36", "decQuo_partial", "decQuo_double_rounding_counterexample",
                               "decQuoRoundUp_ceils_q36", "decQuoRoundUp_partial", "decQuoRoundUp_lost_tail_counterexample")] +
                              ["Posmint.Props.C18Coins." + t for t in ("isValid_canon", "amountOf_spec", "safeAdd_spec", "safeAdd_none_iff", "add_canon",
                               "safeSub_spec", "sub_spec", "add_sub_inverse", "sub_add_inverse", "isAllGTE_spec", "isAllGT_spec", "isAnyGT_spec",
-                              "isAnyGTE_spec", "denomsSubsetOf_spec", "isEqual_partial", "isEqual_sound", "newCoins_spec", "newCoins_of_valid")],
+                              "isAnyGTE_spec", "denomsSubsetOf_spec", "isEqual_partial", "isEqual_sound", "newCoins_spec", "newCoins_of_valid")] +
+                             ["Posmint.Props.C18DecCoins." + t for t in ("add_spec", "add_none_iff", "add_canon", "safeSub_spec", "sub_spec", "add_sub_inverse",
+                              "scale_spec", "scale_total", "mulDec_spec", "mulDecTruncate_spec", "quoDec_spec", "quoDecTruncate_spec", "quoDec_zero_panics",
+                              "mulDec_none_iff", "truncateDecimal_spec")],
         "t1": [
             {"family": "arith", "model": "arith", "stateless": True, "quick_n": 60000, "thorough_n": 16000000},
         ],
@@ -355,10 +358,14 @@ MANIFEST_TEXT = {
                 "negative result, SafeSub reports exactly when an amount would go negative, Add and Sub are inverse both ways; the seven "
                 "comparisons and DenomsSubsetOf are characterised per denomination; NewCoins returns a canonical permutation of the non-zero "
                 "coins; IsEqual is sound (its panic on different denominations is a recorded finding with a proved counterexample). "
+                "DecCoins (Props/C18DecCoins.lean): Add / SafeSub / Sub per denomination with the 315-bit panic condition, Add and Sub inverse; MulDec, "
+                "MulDecTruncate, QuoDec, QuoDecTruncate give for every denomination Dec.Mul / Dec.Quo (or the truncating variant) of the operand's amount, "
+                "sorted and without zero amounts, and panic exactly when the per-coin operation does (or the divisor is zero); TruncateDecimal splits every "
+                "amount into whole * 10^18 + change with 0 <= change < 10^18, both parts canonical - nothing created or lost. "
                 "Model tied to types/*.go by a differential run on boundary-biased operands and independent math/big oracles; operand mutation "
                 "is checked on the implementation.",
         "note": "Lean kernel + 3 standard axioms; model hand-written (types/int.go, uint.go, decimal.go) and tied by T1; "
-                "constants maxBitLen/Precision/DecimalPrecisionBits regenerated from source; Dec.Quo/QuoRoundUp double rounding and Coins.IsEqual's panic are recorded known findings; DecCoins by monitors only",
+                "constants maxBitLen/Precision/DecimalPrecisionBits regenerated from source; Dec.Quo/QuoRoundUp double rounding and Coins.IsEqual's panic are recorded known findings; DecCoins modelled (Model/DecCoins.lean), compared operation by operation, and additionally watched by per-denomination monitors",
         "technique": "Lean 4 proof over executable model + differential correspondence",
     },
 }
